@@ -192,11 +192,10 @@ def bioRead (W : World ω) (s : St σ ω) (n : Nat) : Out Bytes × St σ ω :=
 
 /-- bookkeeping shared by all branches of `BioWrite` -/
 def noteWrite (s : St σ ω) (bs : Bytes) (r : SendRes ω) (rem : Int) : Out Nat × St σ ω :=
-  let g := { s.g with remainingTime := rem, wire := s.g.wire ++ bs.take r.sent,
-                      bioWrites := ⟨bs, r.sent⟩ :: s.g.bioWrites }
+  let g := { s.g with wire := s.g.wire ++ bs.take r.sent, bioWrites := ⟨bs, r.sent⟩ :: s.g.bioWrites }
   match r.exn with
-  | some e => (.exn e, { s with g := g, w := r.w })
-  | none => (.ok r.sent, { s with g := g, w := r.w })
+  | some e => (.exn e, { s with g := g, w := r.w })     -- thrown before `remainingTime` is written back
+  | none => (.ok r.sent, { s with g := { g with remainingTime := rem }, w := r.w })
 
 /-- `BioWrite(data, size)`: routed by `isWritable` and the sign of `remainingTime` -/
 def bioWrite (W : World ω) (s : St σ ω) (bs : Bytes) : Out Nat × St σ ω :=
